@@ -1154,8 +1154,12 @@ func (s *Searcher) getBlocks() ([]*block, error) {
 				pqmrBlockNumbers[block.BlkNum] = struct{}{}
 			}
 
-			totalBlocksInSegment := metadata.GetNumBlocksInSegment(qsr.GetSegKey())
-			if len(pqmrBlockNumbers) == int(totalBlocksInSegment) {
+			// Compare with the blocks the segment really has (one summary per block), not with
+			// SegMeta.NumBlocks: for a segment that was never rotated (adopted from its running
+			// .sfm after a crash) that field is the index of the last flushed block, and the PQMR
+			// can be one block behind the block summaries when the crash came before the last
+			// block's match results were written. Blocks without a PQMR record are raw searched below.
+			if len(pqmrBlockNumbers) == len(blockSummaries) {
 				// All blocks in the segment are covered by the PQMR, so we can skip the raw search.
 				continue
 			}
